@@ -1133,7 +1133,7 @@ engine_gen(struct plan * P, uint64_t seed, struct prng * g)
 	for (i = 0; i < nfd; i++)
 		pline_tok(l, 1, (int64_t)fdv[i]);
 	plan_add(P, "knob", "tick_ns", 1, prng_chance(g, 30) ? (int64_t)prng_n(g, 3000) : (int64_t)0);
-	plan_add(P, "knob", "budget", 1, (int64_t)(20 + prng_n(g, 150)));
+	plan_add(P, "knob", "budget", 1, (int64_t)(20 + nfd + prng_n(g, 150)));
 	plan_add(P, "knob", "realloc_moves", 1, (int64_t)prng_n(g, 2));
 	plan_add(P, "knob", "fill", 1, (int64_t)(prng_chance(g, 50) ? 256 : (prng_chance(g, 50) ? 0xff : 0)));
 	faulty = prng_chance(g, 75);
@@ -1156,6 +1156,13 @@ engine_gen(struct plan * P, uint64_t seed, struct prng * g)
 			gen_action(g, v, nal, 1, nfd);
 			pline_tokv(l, 4, v);
 		}
+	}
+	if (nfd >= 17 && prng_chance(g, 75)) {
+		/* more than 16 descriptors registered at once: the pollfd array and the socket list grow */
+		for (i = 0; i < nfd; i++)
+			if (prng_chance(g, 90))
+				plan_add(P, "step", "reg_net", 3, (int64_t)i, (int64_t)prng_n(g, 2),
+				    (nal > 0 && prng_chance(g, 60)) ? (int64_t)prng_n(g, (uint32_t)nal) : (int64_t)-1);
 	}
 	nsteps = 5 + (int)prng_n(g, 60);
 	for (s = 0; s < nsteps; s++) {
